@@ -13,7 +13,9 @@ TLC rendered.  Python holds no oracle: it builds objects from descriptions, conv
 floats and compares.
 Stage T: harness/props/c17_trace.py (seeded random values and update histories beyond the pools, recorded on
 the real code, validated by TLC against Enc / Dec / RState in one batched run)."""
+import copy
 import json
+import math
 import os
 import pickle
 import shutil
@@ -70,7 +72,12 @@ def model(family, tier, part=0, nparts=1, dev=(), hyp=(), emit=True, laws=LAWS):
 
 # ---------------------------------------------------------------- descriptions -> real objects
 def fval(n, d):
-    """the one trusted evaluation: exact rational -> float (correctly rounded division)"""
+    """the one trusted evaluation: exact rational -> float (correctly rounded division);
+    d = 0 denotes an infinity of the sign of n, n = 0 with d < 0 the negative zero"""
+    if d == 0:
+        return math.inf if n > 0 else -math.inf
+    if n == 0:
+        return -0.0 if d < 0 else 0.0
     return n / d
 
 
@@ -99,7 +106,12 @@ def to_py(v):
 
 def _num_close(x, n, d):
     e = fval(n, d)
-    return float(x) == e or abs(float(x) - e) <= 1e-12 * max(1.0, abs(e))
+    x = float(x)
+    if math.isinf(e) or math.isinf(x) or math.isnan(x):
+        return x == e
+    if e == 0.0 and x == 0.0:  # zeros: the sign is part of the value (-0.0 is written "-0.0")
+        return math.copysign(1.0, x) == math.copysign(1.0, e)
+    return x == e or abs(x - e) <= 1e-12 * max(1.0, abs(e))
 
 
 def cmp_value(obj, v, where, out, exact_types):
@@ -180,7 +192,7 @@ def cmp_tree(p, node, where, out):
     elif j == "float":
         if type(p) is int:
             e = fval(node["n"], node["d"])
-            sig = "tree-f2i" if p == int(e) else "tree"
+            sig = "tree-f2i" if math.isfinite(e) and p == int(e) else "tree"
             out.append((sig, f"{where}: JSON has the integer {p} where the float {e!r} is expected"))
         elif type(p) is not float:
             out.append(("tree", f"{where}: expected float {node['n']}/{node['d']}, JSON has {p!r}"))
@@ -249,19 +261,39 @@ def cmp_tree(p, node, where, out):
 
 
 # ---------------------------------------------------------------- SimulationParameters
-def build_params(P):
+def build_params(P, keep=None):
     from pyphysim.simulations.parameters import SimulationParameters
-    obj = SimulationParameters.create({q["name"]: to_py(q["val"]) for q in P["params"]})
+    d = {q["name"]: to_py(q["val"]) for q in P["params"]}
+    if keep is not None:
+        keep.append((d, P))  # ArgumentsUnchanged: compared with the description again after all calls
+    obj = SimulationParameters.create(d)
     for nm in P["unpacked"]:
         obj.set_unpack_parameter(nm)
     return obj
 
 
-def make_params(P, k, out):
+def check_args(keep, out):
+    """ArgumentsUnchanged: what was handed to create() / update() still is what the description says"""
+    for d, P in keep:
+        if isinstance(P, dict) and "params" in P:
+            if list(d.keys()) != [q["name"] for q in P["params"]]:
+                out.append(("frame", f"ArgumentsUnchanged: the dictionary given to create() now has keys {list(d)}"))
+                continue
+            for q in P["params"]:
+                tmp = []
+                cmp_value(d[q["name"]], q["val"], "argument " + q["name"], tmp, True)
+                out.extend(("frame", "ArgumentsUnchanged: " + w) for _, w in tmp)
+        else:
+            tmp = []
+            cmp_value(d, P, "update() argument", tmp, True)
+            out.extend(("frame", "ArgumentsUnchanged: " + w) for _, w in tmp)
+
+
+def make_params(P, k, out, keep=None):
     """the object of a params description; for a child (k >= 0): unpack the real parent and take element k"""
     if k < 0 and not P["parent"]:
-        return build_params(P)
-    parent = build_params(P["parent"][0])
+        return build_params(P, keep)
+    parent = build_params(P["parent"][0], keep)
     lst = parent.get_unpacked_params_list()
     idx = P["index"]
     if idx >= len(lst):
@@ -322,8 +354,34 @@ def dec_exc_sig(ex):
     return "dec-raise"
 
 
+def perturb(o):
+    """change a loaded object in place (LoadedIsIndependent: the saved object must not notice)"""
+    for name in ("parameters", "_results", "_value_list"):
+        x = getattr(o, name, None)
+        if isinstance(x, dict):
+            for v in x.values():
+                if isinstance(v, list):
+                    v.append("perturbed")
+                elif isinstance(v, np.ndarray) and v.size:
+                    v.reshape(-1)[0] = 99
+            x["__perturbed__"] = [1]
+        elif isinstance(x, list):
+            x.append("perturbed")
+    p = getattr(o, "_params", None)
+    if p is not None:
+        perturb(p)
+    for name in ("_unpacked_parameters_set",):
+        x = getattr(o, name, None)
+        if isinstance(x, set):
+            x.add("__perturbed__")
+    for name, val in (("current_rep", 12345), ("runned_reps", [9, 9]), ("num_updates", 777), ("_unpack_index", 55)):
+        if hasattr(o, name):
+            setattr(o, name, val)
+
+
 def json_cycle(obj, cls, c, out, cmp_fields):
-    """to_json -> text vs tree -> from_json -> == and fields -> to_json -> text vs tree2 -> from_json -> =="""
+    """to_json -> text vs tree -> from_json -> == and fields -> to_json -> text vs tree2 -> from_json -> ==;
+    then EarlierResultsUnchanged (the first reloaded object again) and LoadedIsIndependent"""
     try:
         s1 = obj.to_json()
     except Exception as ex:
@@ -348,6 +406,10 @@ def json_cycle(obj, cls, c, out, cmp_fields):
         return
     eq_both(obj, o3, "second JSON round trip vs x", out, c.get("eqdef", True))
     cmp_fields(o3, "reloaded twice")
+    n0 = len(out)
+    perturb(o3)
+    cmp_fields(o2, "EarlierResultsUnchanged/LoadedIsIndependent: first reloaded object after the second round trip")
+    out[n0:] = [("frame", w) for _, w in out[n0:]]
     # the dictionary form is the same mapping without the text
     try:
         o4 = cls.from_dict(obj.to_dict())
@@ -359,7 +421,8 @@ def json_cycle(obj, cls, c, out, cmp_fields):
 def run_params_case(c, wd):
     from pyphysim.simulations.parameters import SimulationParameters
     out = []
-    obj = make_params(c["P"], c["k"], out)
+    keep = []
+    obj = make_params(c["P"], c["k"], out, keep)
     if obj is None:
         return out
     # the object under test is what the model says it is (for children: the oracle of unpacking)
@@ -384,21 +447,34 @@ def run_params_case(c, wd):
         out.extend(("pickle:" + sg, x) for sg, x in tmp)
         if o.get_num_unpacked_variations() != obj.get_num_unpacked_variations():
             out.append(("pickle", f"{w}: number of variations differs"))
+    perturb(o3)
+    frame_params(obj, c["P"], keep, out)
     return out
 
 
+def frame_params(obj, P, keep, out):
+    """QueryIsPure + ArgumentsUnchanged + LoadedIsIndependent for a parameters object, after every call was made"""
+    tmp = []
+    cmp_params(obj, P, "QueryIsPure: the saved object after all calls", tmp, True)
+    out.extend(("frame", w) for _, w in tmp)
+    check_args(keep, out)
+
+
 # ---------------------------------------------------------------- Result / SimulationResults
-def build_result(R):
+def build_result(R, keep=None):
     from pyphysim.simulations.results import Result
     if R["type"] == 3:
         r = Result(R["name"], R["type"], accumulate_values=R["acc"], choice_num=R["nch"])
     else:
         r = Result(R["name"], R["type"], accumulate_values=R["acc"])
     for u in R["hist"]:
+        v = to_py(u["v"])
+        if keep is not None and isinstance(v, (list, set, np.ndarray)):
+            keep.append((v, u["v"]))
         if R["type"] == 1:
-            r.update(to_py(u["v"]), to_py(u["tot"]))
+            r.update(v, to_py(u["tot"]))
         else:
-            r.update(to_py(u["v"]))
+            r.update(v)
     return r
 
 
@@ -420,6 +496,13 @@ def cmp_result_public(r, st, where, out):
 
 
 def _cmp_result_getters(r, st, where, out, tol):
+    infinite = any(st[k]["d"] == 0 for k in ("rsum", "rsq")) or (st["type"] in (0, 1) and st["value"]["d"] == 0)
+    if infinite and st["num"] > 0 and st["type"] in (0, 1):
+        # an accumulated infinity: the result and the mean are that infinity (the variance is inf - inf, not demanded)
+        exp = fval(st["value"]["n"], 0)
+        if float(r.get_result()) != exp or float(r.get_result_mean()) != fval(st["rsum"]["n"], 0):
+            out.append(("value", f"{where}: get_result()/get_result_mean() {r.get_result()!r}/{r.get_result_mean()!r} != {exp!r}"))
+        return
     if st["num"] > 0 and st["type"] in (0, 1):
         if st["type"] == 0:
             exp = fval(st["value"]["n"], st["value"]["d"])
@@ -456,8 +539,9 @@ def _cmp_result_lists(r, st, where, out):
 def run_result_case(c, wd):
     from pyphysim.simulations.results import Result
     out = []
+    keep = []
     try:
-        r = build_result(c["rd"])
+        r = build_result(c["rd"], keep)
     except AttributeError as ex:
         if "np.int" in str(ex):
             return [("npint", f"Result.update raised AttributeError: {str(ex)[:80]}")]
@@ -477,6 +561,11 @@ def run_result_case(c, wd):
         tmp = []
         cmp_result_public(o, c["st"], w, tmp)
         out.extend(("pickle:" + sg, x) for sg, x in tmp)
+    perturb(r3)
+    tmp = []
+    cmp_result_public(r, c["st"], "QueryIsPure: the saved object after all calls", tmp)
+    out.extend(("frame", x) for _, x in tmp)
+    check_args(keep, out)
     return out
 
 
@@ -490,12 +579,13 @@ def subst_dir(node, d):
     return node
 
 
-def cmp_results_fields(o, S, where, out, exact_types):
+def cmp_results_fields(o, S, where, out, exact_types, with_orig=True):
     cmp_params(o.params, S["params"], where + ".params", out, exact_types)
     cmp_value(o.runned_reps, S["runned"], where + ".runned_reps", out, exact_types)
     if o.current_rep != S["current"]:
         out.append(("current", f"{where}: current_rep {o.current_rep} != {S['current']}"))
-    cmp_value(o.original_filename, S["orig"], where + ".original_filename", out, False)
+    if with_orig:
+        cmp_value(o.original_filename, S["orig"], where + ".original_filename", out, False)
     names = [x["name"] for x in S["res"]]
     if sorted(o.get_result_names()) != sorted(names):
         out.append(("value", f"{where}: result names {o.get_result_names()} != {names}"))
@@ -514,7 +604,8 @@ def run_results_case(c, wd):
     out = []
     c = subst_dir(c, wd)
     S = c["S"]
-    pobj = make_params(S["params"], S["params"]["index"], out)
+    keep = []
+    pobj = make_params(S["params"], S["params"]["index"], out, keep)
     if pobj is None:
         return out
     sr = SimulationResults()
@@ -522,7 +613,7 @@ def run_results_case(c, wd):
     try:
         for grp in c["rd"]:
             for R in grp["rs"]:
-                sr.append_result(build_result(R))
+                sr.append_result(build_result(R, keep))
     except AttributeError as ex:
         if "np.int" in str(ex):
             return [("npint", f"Result.update raised AttributeError: {str(ex)[:80]}")]
@@ -536,6 +627,7 @@ def run_results_case(c, wd):
     if got != expname:
         out.append(("fname", f"file name {os.path.basename(got)!r} != {c['fname']!r}"))
     # --- through a file, twice
+    before = set(os.listdir(wd))
     try:
         fn = sr.save_to_file(tmpl)
     except Exception as ex:
@@ -543,6 +635,9 @@ def run_results_case(c, wd):
         return out
     if fn != expname or not os.path.exists(fn):
         out.append(("fname", f"save_to_file returned {os.path.basename(fn)!r}, expected {c['fname']!r}"))
+    new = sorted(set(os.listdir(wd)) - before)
+    if new != [os.path.basename(fn)]:  # ReturnedNameIsTheFile: exactly the returned name appeared
+        out.append(("fname", f"ReturnedNameIsTheFile: save_to_file returned {os.path.basename(fn)!r} but the files that appeared are {new}"))
     cmp_results_fields(sr, S, "built", out, True)
     if out:
         return [("build" if sg not in ("fname",) and not sg.startswith("enc-") else sg, w) for sg, w in out]
@@ -569,6 +664,13 @@ def run_results_case(c, wd):
         return out
     eq_both(sr, o3, "second file round trip vs x", out, c["eqdef"])
     cmp_results_fields(o3, c["back"] if c["json"] else S, "loaded twice", out, not c["json"])
+    if sorted(set(os.listdir(wd)) - before) != [os.path.basename(fn)]:
+        out.append(("fname", f"ReturnedNameIsTheFile: after the second save the directory holds {sorted(os.listdir(wd))}"))
+    n0 = len(out)
+    perturb(o3)
+    cmp_results_fields(o2, c["back"] if c["json"] else S, "EarlierResultsUnchanged: first loaded object after the second round trip",
+                       out, not c["json"])
+    out[n0:] = [("frame", w) for _, w in out[n0:]]
     if not c["json"]:
         # what was unpickled writes the same JSON as the original
         try:
@@ -577,6 +679,22 @@ def run_results_case(c, wd):
             out.append((enc_exc_sig(ex), f"to_json of the unpickled object raised {type(ex).__name__}: {ex}"))
     # --- as a string, twice
     json_cycle(sr, SimulationResults, c, out, lambda o, w: cmp_results_fields(o, c["back"], w, out, False))
+    # --- RejectedSaveChangesNothing: saves that raise leave the object and the directory alone
+    listing = sorted(os.listdir(wd))
+    for bad in (os.path.join(wd, "no_such_dir", c["template"]), os.path.join(wd, "bad_{num}.txt")):
+        try:
+            sr.save_to_file(bad)
+        except Exception:
+            tmp = []
+            cmp_results_fields(sr, S, f"RejectedSaveChangesNothing ({os.path.basename(bad)})", tmp, True, with_orig=False)
+            out.extend(("frame", w) for _, w in tmp)
+            if sorted(os.listdir(wd)) != listing:
+                out.append(("frame", f"RejectedSaveChangesNothing: a failed save left {sorted(set(os.listdir(wd)) - set(listing))}"))
+    # --- QueryIsPure / ArgumentsUnchanged after everything
+    tmp = []
+    cmp_results_fields(sr, S, "QueryIsPure: the saved object after all calls", tmp, True, with_orig=False)
+    out.extend(("frame", w) for _, w in tmp)
+    check_args(keep, out)
     return out
 
 
@@ -606,14 +724,15 @@ def run_fields_case(c, wd):
     from pyphysim.simulations.results import SimulationResults
     out = []
     S = c["S"]
-    pobj = make_params(S["params"], S["params"]["index"], out)
+    keep = []
+    pobj = make_params(S["params"], S["params"]["index"], out, keep)
     if pobj is None:
         return out
     sr = SimulationResults()
     sr.set_parameters(pobj)
     for grp in c["rd"]:
         for R in grp["rs"]:
-            sr.append_result(build_result(R))
+            sr.append_result(build_result(R, keep))
     sr.runned_reps = to_py(S["runned"])
     sr.current_rep = S["current"]
     sr.original_filename = to_py(S["orig"])
@@ -632,6 +751,11 @@ def run_fields_case(c, wd):
         tmp = []
         cmp_results_fields(o, S, w, tmp, True)
         out.extend(("pickle:" + sg, x) for sg, x in tmp)
+    perturb(o3)
+    tmp = []
+    cmp_results_fields(sr, S, "QueryIsPure: the saved object after all calls", tmp, True)
+    out.extend(("frame", w) for _, w in tmp)
+    check_args(keep, out)
     return out
 
 
@@ -658,6 +782,9 @@ def save_all_load_back(objs, tmpl, out, what):
         if n1 != n2 or fn != n1:
             out.append(("fname", f"{what}: the file name is not a function of the values: {n1!r}, {n2!r}, saved to {fn!r}"))
         names.append(fn)
+    there = sorted(os.listdir(os.path.dirname(tmpl)))
+    if there != sorted({os.path.basename(n) for n in names}):
+        out.append(("fname", f"{what}: ReturnedNameIsTheFile: returned {[os.path.basename(n) for n in names]}, directory holds {there}"))
     if len(set(names)) != len(names):
         out.append(("fname", f"{what}: distinct values got the same file name: "
                              f"{[os.path.basename(n) for n in names]} for {[o.params['num'] for o in objs]!r}"))
